@@ -145,14 +145,11 @@ func (p *Subscribe) UnmarshalBinary(data []byte) error {
 	b.get(&p.packetID)
 	b.getAny(p.propertyMap(true), p.appendUserProperty)
 
-	for {
+	for b.err == nil && b.i < len(data) {
 		var f TopicFilter
 		b.get(&f.filter)
 		b.get(&f.options)
 		p.filters = append(p.filters, f)
-		if b.i == len(data) {
-			break
-		}
 	}
 	return b.err
 }
